@@ -1,0 +1,32 @@
+//go:build verif
+
+// Contracts for package bigxy, read by /verif's govc. Comment-only.
+package bigxy
+
+// C10, sign logic over the reals: the filter answers with the sign of the cross product
+// (Ox-Px)(Ey-Py) - (Oy-Py)(Ex-Px) or declines (2); it never answers with a wrong sign.
+
+//@ func orientationBasedOnSign
+//@   floats real
+//@   ensures res == (x > 0.0 ? 1 : (x < 0.0 ? 0 - 1 : 0))
+//@   modifies nothing
+
+//@ func orientationIndexFilter
+//@   floats real
+//@   requires len(vectorOrigin) >= 2 && len(vectorEnd) >= 2 && len(point) >= 2
+//@   ensures res == 2 || res == sgnOf(cross2(vectorOrigin[0], vectorOrigin[1], vectorEnd[0], vectorEnd[1], point[0], point[1]))
+//@   modifies nothing
+
+// the extended-precision branch, with big.Float values as exact reals (trusted model of math/big; the
+// precision actually carried by the temporaries is not part of this contract)
+//@ func orientationBasedOnSignForBig
+//@   floats real
+//@   ensures res == sgnOf(bvs(x))
+//@   modifies nothing
+
+//@ func OrientationIndex
+//@   floats real
+//@   requires len(vectorOrigin) >= 2 && len(vectorEnd) >= 2 && len(point) >= 2
+//@   ensures res == sgnOf(cross2(vectorOrigin[0], vectorOrigin[1], vectorEnd[0], vectorEnd[1], point[0], point[1]))
+//@   at exit: use crossForms(vectorOrigin[0], vectorOrigin[1], vectorEnd[0], vectorEnd[1], point[0], point[1])
+//@   modifies nothing
